@@ -34,7 +34,7 @@ SHRINK_DICTS = ("world/files", "world/env", "world/symlinks", "world/dirmodes", 
 
 INNER = {"opts": {"exit_on_error": False}, "args": [{"k": "arg", "name": "q", "type": "int", "default": 0}, {"k": "arg", "name": "v", "type": "list_float", "default": [0.5]}, {"k": "arg", "name": "ip", "type": "opt_path_fr", "default": None}, {"k": "arg", "name": "pr", "type": "opt_probe", "default": None}]}
 
-FEATS = ["inner1", "inner2", "dct", "obj", "p", "pr", "x", "req", "dg"]
+FEATS = ["inner1", "inner2", "dct", "obj", "p", "pr", "x", "req", "dg", "jn", "js"]
 
 
 def parser_spec(feats):
@@ -56,6 +56,10 @@ def parser_spec(feats):
         args.append({"k": "arg", "name": "obj", "type": "opt_base", "default": None, "enable_path": True})
     if "dg" in feats:
         args.append({"k": "class", "cls": "D", "name": "dg"})
+    if "jn" in feats:
+        args.append({"k": "jsonnet", "name": "jn"})
+    if "js" in feats:
+        args.append({"k": "jsonschema", "name": "js", "schema": {"type": "object", "properties": {"k": {"type": "integer"}}, "additionalProperties": False}})
     return {"opts": {"exit_on_error": False}, "args": args, "feats": sorted(feats)}
 
 
@@ -102,6 +106,19 @@ def generate(rng, tier):
             main["obj"] = "B/obj.yaml"
         else:
             main["obj"] = o
+    if "jn" in feats:
+        # jsonnet source kept verbatim on save (__orig__) when it was loaded from a file
+        if rng.random() < 0.75:
+            files["src/B/model.jsonnet"] = "{ layers: %d, width: 16 * 2 }\n" % rng.randint(1, 9)
+            main["jn"] = "B/model.jsonnet"
+        else:
+            main["jn"] = {"layers": rng.randint(1, 9)}
+    if "js" in feats:
+        if rng.random() < 0.7:
+            files["src/B/schema_val.json"] = json.dumps({"k": rng.randint(1, 9)})
+            main["js"] = "B/schema_val.json"
+        else:
+            main["js"] = {"k": rng.randint(1, 9)}
     files["src/main.yaml"] = json.dumps(main)
     # invalidation of the loaded config
     mut = []
@@ -123,6 +140,8 @@ def generate(rng, tier):
             choices.append({"key": "obj.init_args.n", "value": "bad"})
         if "dg" in feats:
             choices.append({"key": "dg.u", "value": "bad"})
+        if "js" in feats:
+            choices.append({"key": "js", "value": {"k": "bad"}})
         mut.append(rng.choice(choices))
     # state of the storage before the save
     target_name = rng.choice(["saved.yaml", "saved.yaml", "saved.json", "cfg"])
@@ -270,18 +289,19 @@ def _effect(ch, before):
 
 
 def cause_of(o, sim):
-    """why did save raise?  'config' | 'env' | 'fault-os' | 'fault-declared' | 'fault-undeclared' | 'unexpected'"""
+    """why did save raise?  'config' | 'env' | 'fault-os' | 'fault-declared' | 'fault-undeclared'.
+    A fault only counts as the cause when the exception that came out IS the injected one (or wraps it):
+    an injected ValueError that a Union fallback or suppress() swallowed is not why a later open() failed."""
     from jsonargparse._util import PathError
 
     ex = o.exc
-    fired_types = [f[3] for f in sim.fired]
     if o.injected:
-        if isinstance(ex, OSError) or "oserror" in fired_types or "torn" in fired_types:
-            return "fault-os"
-    if "raise" in fired_types:
-        cls = [f for f in sim.faults if f["_done"] and f["fault"]["type"] == "raise"][0]["fault"]["cls"]
-        return "fault-declared" if cls in ("ValueError", "TypeError") else "fault-undeclared"
-    if "oserror" in fired_types or "torn" in fired_types:
+        done = [f for f in sim.faults if f["_done"]]
+        t = done[0]["fault"]["type"] if done else "oserror"
+        if t == "raise":
+            return "fault-declared" if done[0]["fault"]["cls"] in ("ValueError", "TypeError") else "fault-undeclared"
+        return "fault-os"
+    if any(f[3] in ("oserror", "torn") for f in sim.fired) and isinstance(ex, OSError):
         return "fault-os"
     if isinstance(ex, (OSError, PathError)):
         return "env"
